@@ -80,7 +80,10 @@ CLAIMS = {
             "read_partial_rejects_iff), read-back map interchangeable (C10.Same); correspondence incl. raw astropy "
             "inspection of the written extensions, metadata, second-generation files and continuation histories; API LEVEL "
             "and GLOBAL: apiRead(apiWrite m) = m iff m is file-typed, and unconditionally for every map reachable through "
-            "any protocol history (reachable_read_write_full, reachable_read_pixels, reachable_write_read_world)",
+            "any protocol history (reachable_read_write_full, reachable_read_pixels, reachable_write_read_world); HISTORY "
+            "LEVEL (Props/DenseIO): histories over 39 operations incl. write / read (full and by pixels) / covread / metadata "
+            "/ HEALPix import and export / MOC refine a dense interpreter with dense files, unconditionally "
+            "(reachable_dense_io)",
             NOTE + "astropy FITS encoding / compression / header formatting trusted; Parquet not exercised (pyarrow "
             "absent, the property conditions on it).", TECH, "6 C03"),
     'C05': ("Lean proof that every _PackedBoolArray method refines the numpy boolean-array operation on the bit list "
@@ -132,7 +135,9 @@ CLAIMS = {
             "that field of the addressed pixels, the view guard rejects new pixels (7 theorems); correspondence with "
             "freshly taken views; API / DRIVER LEVEL (17 theorems): record validity and whole-record writes, single-field "
             "copies (exact collision rule), views at the driver (exactly when refused, what they show), writes through a "
-            "view change exactly one field of exactly the addressed pixels or nothing, no staleness", NOTE +
+            "view change exactly one field of exactly the addressed pixels or nothing, no staleness; HISTORY LEVEL "
+            "(Props/C14Dense): histories with record-field views refine a dense interpreter with view descriptors "
+            "(reachable_dense_views, reachable_dense_record)", NOTE +
             "views kept across parent growth dangle (memory safety, outside the model).", TECH, "6 C14 / AB.9"),
     'C15': ("Lean proof that upgrade replicates values to children with the same coverage, degrade(upgrade) restores "
             "the map for reductions that are the identity on constant groups, and fracdet = valid-children count at "
